@@ -52,6 +52,10 @@ PYFORMS = {
     # an escaped semicolon inside the expression's own part (it is only an
     # escape in tal:define / tal:attributes lists; elsewhere a plain string)
     "semi": "(';;' and %s)",
+    # string literals with an escaped quote of their own kind (a later
+    # pipe alternative or following text brings further quotes)
+    "esc_quote": "(%s, 'it\\'s')[0]",
+    "esc_quote2": "('a\\'b' and %s)",
 }
 
 
